@@ -84,7 +84,9 @@ func VerifH_v4_alloc() {
 	a, pre, start, n := v4State()
 	hint, named, hv := v4Arg("hint")
 
+	vnd.Share("alloc4", a)
 	got, err := a.Allocate(net.IPNet{IP: hint})
+	vnd.Unshare()
 
 	post := a.bitmap.Bytes()
 	vnd.Assert(a.bitmap.Len() == uint(n), "C05 v4 bitmap length unchanged")
@@ -132,7 +134,9 @@ func VerifH_v4_free() {
 	a, pre, start, n := v4State()
 	arg, named, av := v4Arg("arg")
 
+	vnd.Share("alloc4", a)
 	err := a.Free(net.IPNet{IP: arg, Mask: net.CIDRMask(32, 32)})
+	vnd.Unshare()
 
 	post := a.bitmap.Bytes()
 	vnd.Assert(a.bitmap.Len() == uint(n), "C06 v4 bitmap length unchanged")
